@@ -57,6 +57,15 @@ CHECKS = {
  "C05": dict(tech=TECH+"exhaustive exploration of GetTopicName over the 16 presence combinations of its four map lookups; derivation rule for every 'found' return of GetTopicID (range key + value equality + shadowing lookup in the client's own map)",
    text="Both clauses are decided for all maps, client IDs and names because the argument is value independent (presence = comma-ok results; entry values unconstrained).",
    note="Trusted: go/ssa; YAML parsing is out of scope.", ref="4/C05"),
+ "C06": dict(tech=TECH+"origin classification of every transaction-store key (who chose the ID), dominance rule 'stored only after a failed Get of the same key', compare-and-delete rule for completion callbacks, comma-ok rule for dispatch assertions, key-agreement rule constructor vs Store site",
+   text="Decides whether independence of the two ID spaces is enforced by construction. It is not (one uint16 map shared by both sides' exchanges, unconditional deletes, overwriting stores): these are recorded as known findings, each keyed by its construct; a new sharing site, a new unconditional delete, an unchecked assertion or a free-ID search that does not probe its candidate is a new violation.",
+   note="Trusted: go/ssa. Behaviour of one particular interleaving is not decided.", ref="4/C06"),
+ "C10": dict(tech=TECH+"constant evaluation of the connect transaction's timeout, must-pass-through path rule for the watcher spawn, exploration of the watcher over the possible transaction errors, defer/return path rule for the broker connection",
+   text="The reaping mechanism is wired on every path and for every stopping point of the exchange (the argument does not depend on which packet was last). The numeric bound (5 s + poll interval) is scheduler/timer behaviour and is not decided.",
+   note="Trusted: go/ssa, time.AfterFunc, errgroup semantics (first non-nil error cancels the group).", ref="4/C10"),
+ "C13": dict(tech=TECH+"must-pass-through path rules on the session function (Wait / deferred cancel / deferred Close), enumeration and classification of every blocking select, receive and send (Done() case and the root of its context), cycle rule for the connection wrapper's retry loop, path rule for the receive loops, session-automaton exploration for the shutdown DISCONNECT",
+   text="No-leak / join / close structure for every termination cause; the numeric bound and OS-level blocking inside net.Conn are not decided.",
+   note="Trusted: go/ssa, errgroup, context semantics.", ref="4/C13"),
 }
 
 NA = {
